@@ -221,6 +221,26 @@ def run(P, C):
         ok = ok and len(st) == 1 and local_id(peel(ts.assign_parts(f, st[0])[0])[1][0]) == order[0] and \
             local_id(peel(ts.assign_parts(f, st[0])[1])[1][0]) == order[1]
     C.ob("CL-5", "permuteDimensions", "coefficient-scatter", ok, f.loc(scatter[0]) if scatter else f.where(), det)
+    # ... and it is executed for every coefficient: the scratch array comes uninitialised from new float[n], so a position that is skipped
+    # (a `continue` for zeros, a break) keeps whatever the allocator returned and that is copied back into the table
+    from . import uw as _uw
+    st_all = [x for x in f.walk() if ts.assign_parts(f, x) and coeff_temp is not None and local_id(peel(ts.assign_parts(f, x)[0])[0]) == coeff_temp]
+    okc, detc = False, "no store into the scratch coefficient array found"
+    if len(st_all) == 1:
+        loops_ = [a for a in f.ancestors(st_all[0]) if f.k(a) in ("ForStmt", "WhileStmt", "DoStmt", "CXXForRangeStmt")]
+        branch = [a for a in f.ancestors(st_all[0]) if f.k(a) in ("IfStmt", "SwitchStmt", "ConditionalOperator")]
+        cl = _uw.canonical_loop(f, loops_[0]) if loops_ and f.k(loops_[0]) == "ForStmt" else None
+        zero_init = False
+        for x in f.walk():
+            if f.k(x) == "DeclStmt":
+                for d in f.nodes[x]["decls"]:
+                    if d.get("id") == coeff_temp and d.get("init", -1) >= 0:
+                        zero_init = any(f.k(y) == "CXXNewExpr" and f.nodes[y].get("hasInit") for y in f.walk(d["init"]))
+        okc = len(loops_) == 1 and not branch and cl is not None
+        detc = ("the store %s is executed once for every position 0..%s (plain counting loop, no branch, no continue/break)" % (f.render(st_all[0]).replace("this->", ""), cl[1])) if okc else \
+            "the store %s into the scratch array (%s) is skipped for some positions (branch: %s; counting loop without continue/break: %s): those entries of the permuted table are whatever the allocator returned" % (
+                f.render(st_all[0]).replace("this->", ""), "uninitialised `new float[n]`" if not zero_init else "value-initialised", bool(branch), cl is not None)
+    C.ob("CL-5", "permuteDimensions", "every-coefficient-relocated", okc, f.loc(st_all[0]) if st_all else f.where(), detc)
     ps = []
     for i, cal in f.calls():
         if cal and cal["name"] in ("partial_sum", "reverse") and cal["qname"].startswith("std::"):
